@@ -6,7 +6,9 @@ import itertools
 
 from harness.common import Failure, Spec, coq_bytes, coq_list
 
-# case = {"ops": [["w", hex] | ["ws", [hex, ...]] | ["neg", hex1, hex] | ["raw", hex]], "lens": [int, ...]}
+# case = {"ops": [["w", hex] | ["ws", [hex, ...], kind] | ["neg", hex1, hex] | ["raw", hex]], "lens": [int, ...]}
+#   kind  (optional, default "list") how the chunks are handed to writeSequence: "list", "tuple", "gen" (a generator)
+#         or "iter" (a list iterator) -- ITransport.writeSequence takes "an iterable of byte strings", which may be one-shot
 #   ops   write / writeSequence / requestNegotiation(about, data) calls made on the sending TelnetTransport;
 #         "raw" = bytes the harness hands to the underlying transport directly (what _do/_will/... do; also
 #         malformed / command-bearing streams)
@@ -39,7 +41,17 @@ def _send(case) -> bytes:
         if o[0] == "w":
             t.write(bytes.fromhex(o[1]))
         elif o[0] == "ws":
-            t.writeSequence([bytes.fromhex(x) for x in o[1]])
+            chunks = [bytes.fromhex(x) for x in o[1]]
+            kind = o[2] if len(o) > 2 else "list"
+            if kind == "tuple":
+                seq = tuple(chunks)
+            elif kind == "gen":
+                seq = (c for c in chunks)
+            elif kind == "iter":
+                seq = iter(chunks)
+            else:
+                seq = chunks
+            t.writeSequence(seq)
         elif o[0] == "neg":
             t.requestNegotiation(bytes.fromhex(o[1]), bytes.fromhex(o[2]))
         else:
@@ -172,6 +184,9 @@ def oracle(case, obs):
         for o in ops:           # which call produced the deviating bytes
             if _send({"ops": [o]}) != ref_wire(o):
                 cls = {"ws": "writeSequence", "w": "write", "neg": "requestNegotiation", "raw": "raw"}[o[0]]
+                if o[0] == "ws" and len(o) > 2 and o[2] in ("gen", "iter") \
+                        and _send({"ops": [["ws", o[1], "list"]]}) == ref_wire(o):
+                    cls = "writeSequence-one-shot-iterable"     # the same chunks as a list are written correctly
                 break
         return Failure(case, f"wire bytes {w.hex()} are not the escaped payload {want.hex()}", cls + "-wire-not-escaped")
     if any(e == "D:" for e in evs):
@@ -220,6 +235,7 @@ def oracle(case, obs):
 
 HOT = [255, 255, 255, 10, 10, 13, 0, 240, 250, 251, 253, 254, 241, 249, 239, 65, 66, 1]
 SIMPLE = [239, 241, 242, 243, 244, 245, 246, 247, 248, 249]
+SEQ_KINDS = ["list", "tuple", "gen", "iter"]
 
 
 def _bytes(rng, n, cr=True):
@@ -254,7 +270,8 @@ def _lens(rng, total):
 def _data_op(rng, cr):
     if rng.random() < 0.5:
         return ["w", _bytes(rng, rng.randrange(0, 7), cr).hex()]
-    return ["ws", [_bytes(rng, rng.randrange(0, 4), cr).hex() for _ in range(rng.randrange(0, 4))]]
+    return ["ws", [_bytes(rng, rng.randrange(0, 4), cr).hex() for _ in range(rng.randrange(0, 4))],
+            rng.choice(SEQ_KINDS)]
 
 
 def _cmd_op(rng):
@@ -297,10 +314,10 @@ def gen(rng, tier):
             if how == 0:
                 ops = [["w", p.hex()]]
             elif how == 1:
-                ops = [["ws", [p[:1].hex(), p[1:].hex()]]]
+                ops = [["ws", [p[:1].hex(), p[1:].hex()], rng.choice(SEQ_KINDS)]]
             else:
                 k = rng.randrange(len(p) + 1)
-                ops = [["w", p[:k].hex()], ["ws", [p[k:].hex()]]]
+                ops = [["w", p[:k].hex()], ["ws", [p[k:].hex()], rng.choice(SEQ_KINDS)]]
             cut = rng.randrange(wl)
             cases.append({"ops": ops, "lens": [cut] if cut < wl - 1 else [0] * wl})
     # (d) well-formed mixed streams: CR-free data interleaved with commands and requestNegotiation
@@ -328,6 +345,8 @@ def corpus():
     return [
         {"ops": [["ws", ["61ff", "f40a62"]]], "lens": []},           # IAC IP through writeSequence
         {"ops": [["ws", ["0a"]]], "lens": []},                       # LF through writeSequence
+        {"ops": [["ws", ["61", "62ff", "63"], "gen"]], "lens": []},   # one-shot iterable, escaping needed after chunk 1
+        {"ops": [["ws", ["61", "62"], "iter"], ["w", "63"]], "lens": []},   # one-shot iterable, nothing to escape
         {"ops": [["w", "61ff0a62"], ["ws", ["ff", "ff"]]], "lens": [0, 0, 0, 0, 0, 0, 0, 0, 0, 0]},
         {"ops": [["w", "ffff0a0aff"]], "lens": [0, 1, 0, 2]},
         {"ops": [["w", "41ff0afb"], ["raw", "fffd01"], ["ws", ["ff", "f40a"]], ["neg", "1f", "00fff0"], ["w", "ff"]],
@@ -374,10 +393,10 @@ def shrink(case):
                 yield rest(["neg", o[1], o[2][:k] + o[2][k + 2:]])
         if o[0] == "ws":
             for k in range(len(o[1])):
-                yield rest(["ws", o[1][:k] + o[1][k + 1:]])
+                yield rest(["ws", o[1][:k] + o[1][k + 1:]] + o[2:])
                 if len(o[1][k]) > 2:
-                    yield rest(["ws", o[1][:k] + [o[1][k][2:]] + o[1][k + 1:]])
-                    yield rest(["ws", o[1][:k] + [o[1][k][:-2]] + o[1][k + 1:]])
+                    yield rest(["ws", o[1][:k] + [o[1][k][2:]] + o[1][k + 1:]] + o[2:])
+                    yield rest(["ws", o[1][:k] + [o[1][k][:-2]] + o[1][k + 1:]] + o[2:])
     if lens:
         yield {**case, "lens": []}
         for i in range(len(lens)):
@@ -393,6 +412,7 @@ def histogram(case, obs):
     else:
         k = "raw/malformed"
     k += "+seq" if "ws" in kinds else ""
+    k += "(one-shot)" if any(o[0] == "ws" and len(o) > 2 and o[2] in ("gen", "iter") for o in case["ops"]) else ""
     k += " split" if case["lens"] else " whole"
     return k
 
@@ -406,7 +426,7 @@ SPEC = Spec(
     nontrivial=lambda c, o: ("ff" in o.split(" e=")[0]) or ("0d0a" in o) or (" C:" in o) or (" S:" in o) or ("!" in o),
     histogram=histogram,
     rule="CR-free and CR-bearing payloads over a hot alphabet (IAC, LF, CR, NUL, SB, SE, WILL..DONT, simple commands) "
-         "in random write/writeSequence groupings with random / byte-by-byte / whole delivery; every payload of "
+         "in random write/writeSequence groupings (writeSequence given a list, tuple, generator or iterator, chosen per call) with random / byte-by-byte / whole delivery; every payload of "
          "length <= 3 (quick, longest 35% sampled; thorough <= 4 over 8 symbols) with a two-way wire split; well-formed "
          "mixed streams (data, simple and option commands, requestNegotiation with IAC-bearing payloads); wire streams "
          "assembled from malformed escapes, empty/truncated subnegotiations and CR sequences; "
